@@ -39,3 +39,14 @@ End Sha2Bounds.
 (* detail::hotp_from_digest reads hmac_result[offset .. offset+3] and divisor[digits-1] *)
 Definition hotp_digest_reads (dg : list N) : list range :=
   match dg with [] => [] | _ => [(N.to_nat (N.land (last dg 0) 0x0F), 4%nat)] end.
+
+(* get_hmac (hmac.cpp:232-273): the buffers it sizes and the ranges it copies into them. (array length, (offset, count)):
+   key[block] <- the key (or, when it is longer than a block, its digest); inner_data[block + msg_len] <- ipad, message;
+   outer_data[block + digest] <- opad, inner hash. The size_t sums are guarded by msg_len <= SIZE_MAX - block_size. *)
+Definition hmac_accesses (t : hash_t) (key_len msg_len : nat) : list (nat * range) :=
+  let b := block_size t in let d := digest_size t in
+  [(b, (0, if (b <? key_len) then d else key_len));
+   (b + msg_len, (0, b)); (b + msg_len, (b, msg_len));
+   (b + d, (0, b)); (b + d, (b, d))]%nat.
+Definition hmac_sizes_no_wrap (t : hash_t) (msg_len : N) : bool :=
+  (N.of_nat (block_size t) + msg_len <? 2 ^ 64) && (N.of_nat (block_size t) + N.of_nat (digest_size t) <? 2 ^ 64).
